@@ -26,7 +26,8 @@ def build(mod):
     IDX_S = z3.Function('source_index', z3.StringSort(), z3.IntSort())
     IDX_N = z3.Function('name_index', z3.StringSort(), z3.IntSort())
     IDX_S_NI = z3.Int('source_index_of_NotImplemented')
-    LINE = z3.Function('line_piece', z3.IntSort(), z3.IntSort(), z3.StringSort())
+    LINE = z3.Function('line_piece', z3.StringSort(), z3.IntSort(), z3.StringSort())      # j-th piece of chunk.splitlines(True)
+    NPIECES = z3.Function('line_pieces', z3.StringSort(), z3.IntSort())
     CHUNK = z3.Function('chunk_text', z3.IntSort(), z3.StringSort())
     LNO = z3.Function('frag_lineno', z3.IntSort(), z3.IntSort())
     CNO = z3.Function('frag_colno', z3.IntSort(), z3.IntSort())
@@ -132,15 +133,17 @@ def build(mod):
     # ---- the fragments: (chunk, lineno, colno, original_name, source), every None / value combination
     KINDS = [(l, c, n, s) for l in (False, True) for c in (False, True) for n in (False, True) for s in ('none', 'str', 'NI')]
 
+    def splitlines_model(e, recv, args, kwargs):
+        """str.splitlines(True): some number of non-empty pieces (none for the empty string), whatever the text"""
+        seq = PAbsSeq('lines', kinds=(1,), width=1, elem=lambda j, _k: SStr(LINE(recv.t, j)), elem_facts=lambda ln: [z3.Length(ln.t) > 0])
+        e.assume(seq.n == NPIECES(recv.t))
+        e.assume(z3.Implies(z3.Length(recv.t) == 0, seq.n == 0))
+        e.assume(z3.Implies(z3.Length(recv.t) > 0, seq.n >= 1))
+        return seq
+
     def frag_elem(i, kind):
         l, c, n, s = KINDS[kind]
-        chunk = PObj(object, name='chunk')
-
-        def splitlines(e, a, k):
-            return PAbsSeq('lines', kinds=(1,), width=1, elem=lambda j, _k: SStr(LINE(i, j)),
-                           elem_facts=lambda ln: [z3.Length(ln.t) > 0])
-        chunk.fields['splitlines'] = PExt('str.splitlines', splitlines)
-        return (chunk, SInt(LNO(i)) if l else None, SInt(CNO(i)) if c else None, SStr(ONAME(i)) if n else None,
+        return (SStr(CHUNK(i)), SInt(LNO(i)) if l else None, SInt(CNO(i)) if c else None, SStr(ONAME(i)) if n else None,
                 None if s == 'none' else NotImplemented if s == 'NI' else SStr(SRC(i)))
 
     class FragsT(object):
@@ -164,7 +167,7 @@ def build(mod):
         if x is NotImplemented:
             return SInt(IDX_S_NI)
         return SInt(fn(x.t if isinstance(x, SStr) else z3.StringVal(x)))
-    env = {'__reset__': reset, 'kc': Helper(kc), 'kp': Helper(kp), 'cur': Helper(lambda e, o: o.fields['#cur']),
+    env = {'__reset__': reset, '__str_methods__': {'splitlines': splitlines_model}, 'kc': Helper(kc), 'kp': Helper(kp), 'cur': Helper(lambda e, o: o.fields['#cur']),
            'nseg': Helper(lambda e: len(segs(e))), 'seg': Helper(lambda e: segs(e)[0]),
            'pushed': Helper(lambda e: any(x[0] == 'push' for x in rec['log'])),
            'both': Helper(lambda e, a, b: False if (a is None or b is None) else SBool(z3.And(a.t > 0, b.t > 0))),
